@@ -990,9 +990,15 @@ func runScenario(seed int64, steps int) {
 	}
 }
 
-// followLeader: after a leader move a produce request must reach the new leader within one metadata TTL plus a
-// round trip; observed with generous tolerance (scheduler noise), reported, never proved.
-func followLeader(r *rand.Rand, ttl time.Duration) {
+// followLeader: the `follow` family.  Refresh faults on the control connection (a metadata request that is never
+// answered, answered late, answered after the per-request deadline, a dropped connection, a failing redial — at
+// the 1st/2nd/3rd refresh from now) are interleaved with leader moves; after each move a produce request must
+// reach the new leader within one metadata TTL plus a round trip counted from the later of the move and the
+// moment the fault clears.  Timing is observed with generous tolerance (scheduler noise), never proved.  The
+// journal must also show a metadata request in every window of 2·TTL (+ tolerance) while the transport is in use.
+// The family stops at the first failing round so that a dead refresh loop costs seconds.
+func followLeader(r *rand.Rand, ttl time.Duration, rounds int) {
+	const tolerance = 1500 * time.Millisecond
 	c := fakecluster.New()
 	for id := int32(0); id < 3; id++ {
 		c.AddBroker(id)
@@ -1003,7 +1009,7 @@ func followLeader(r *rand.Rand, ttl time.Duration) {
 	addr := kafka.TCP(c.Brokers[0].Addr())
 	send := func() int32 {
 		mark := c.Mark()
-		ctx, cancel := context.WithTimeout(context.Background(), 5*time.Second)
+		ctx, cancel := context.WithTimeout(context.Background(), 2*time.Second)
 		defer cancel()
 		if _, err := tr.RoundTrip(ctx, addr, build(reqSpec{pkg: "produce", tps: []tp{{"t", []int32{0}}}})); err != nil {
 			return -1
@@ -1015,33 +1021,108 @@ func followLeader(r *rand.Rand, ttl time.Duration) {
 		}
 		return -1
 	}
+	var script []string
+	within, worst := 1, time.Duration(0)
+	start := time.Now()
 	if send() != 0 {
-		emit(fmt.Sprintf("follow ttl=%d", ttl.Milliseconds()), "within=0")
-		return
+		within = 0
 	}
-	worst := time.Duration(0)
-	for round := 0; round < 4; round++ {
-		nl := int32(1 + r.Intn(2))
-		c.Lock()
-		if c.Topics["t"].Parts[0].Leader == nl {
-			nl = 3 - nl
+	kinds := []string{"stall", "late", "delay", "drop", "dialfail", "none", "stall"}
+	for round := 0; round < rounds && within == 1; round++ {
+		kind := kinds[r.Intn(len(kinds))]
+		if round == 0 {
+			kind = "stall"
 		}
+		n := 1 + r.Intn(3)
+		script = append(script, fmt.Sprintf("%s@%d", kind, n))
+		var f fakecluster.Fault
+		clearAfter := time.Duration(0)
+		switch kind {
+		case "stall":
+			f, clearAfter = fakecluster.Fault{Kind: "stall"}, ttl
+		case "late": // answered after the per-request deadline (metadataTTL) has expired
+			f, clearAfter = fakecluster.Fault{Kind: "delay", Delay: ttl + ttl/2}, ttl
+		case "delay":
+			f = fakecluster.Fault{Kind: "delay", Delay: ttl / 3}
+		case "drop", "dialfail":
+			f = fakecluster.Fault{Kind: "drop"}
+		case "none":
+			f = fakecluster.Fault{Kind: "delay", Delay: 0}
+		}
+		c.Lock()
+		done0 := c.FaultsDone
+		c.MetaFaults = append(make([]fakecluster.Fault, n-1), f)
+		if kind == "dialfail" {
+			c.DialFailures = 1
+		}
+		c.Unlock()
+		// the refresh loop must reach the scripted request: a metadata request at least every TTL
+		waitUntil := time.Now().Add(time.Duration(n)*ttl*2 + tolerance)
+		var tFault time.Time
+		for {
+			c.Lock()
+			d, at := c.FaultsDone, c.LastFaultAt
+			c.Unlock()
+			if d > done0 {
+				tFault = at
+				break
+			}
+			if time.Now().After(waitUntil) {
+				within = 0
+				fmt.Fprintf(os.Stderr, "follow: round %d (%s@%d): no metadata request reached the cluster within %v\n", round, kind, n, time.Duration(n)*ttl*2+tolerance)
+				break
+			}
+			time.Sleep(time.Millisecond)
+			send() // the transport is in use
+		}
+		if within == 0 {
+			break
+		}
+		// the leader moves at some point during or shortly after the fault
+		moveAt := tFault.Add(time.Duration(r.Int63n(int64(ttl + ttl/4))))
+		time.Sleep(time.Until(moveAt))
+		c.Lock()
+		nl := (c.Topics["t"].Parts[0].Leader + 1 + int32(r.Intn(2))) % 3
 		c.Topics["t"].Parts[0].Leader = nl
 		c.Unlock()
-		t0 := time.Now()
-		for send() != nl && time.Since(t0) < 10*time.Second {
+		from := time.Now()
+		if cl := tFault.Add(clearAfter); cl.After(from) {
+			from = cl
+		}
+		limit := from.Add(ttl + tolerance)
+		for send() != nl {
+			if time.Now().After(limit) {
+				within = 0
+				fmt.Fprintf(os.Stderr, "follow: round %d (%s@%d): %v after the leader moved to broker %d (fault cleared %v ago) produce still does not reach it\n",
+					round, kind, n, time.Since(moveAt).Round(time.Millisecond), nl, time.Since(tFault.Add(clearAfter)).Round(time.Millisecond))
+				break
+			}
 			time.Sleep(time.Millisecond)
 		}
-		if d := time.Since(t0); d > worst {
+		if d := time.Since(from); within == 1 && d > worst {
 			worst = d
 		}
 	}
-	fmt.Fprintf(os.Stderr, "follow: ttl=%v worst delay until the new leader is used: %v\n", ttl, worst)
-	within := 0
-	if worst <= ttl+1500*time.Millisecond { // TTL + round trip, with tolerance for scheduling noise
-		within = 1
+	// a metadata request in every 2·TTL window while the transport was in use
+	gap, last, maxGap := 1, start, time.Duration(0)
+	for _, e := range c.Since(0) {
+		if e.ApiKey == protocol.Metadata {
+			if d := e.Time.Sub(last); d > maxGap {
+				maxGap = d
+			}
+			last = e.Time
+		}
 	}
-	emit(fmt.Sprintf("follow ttl=%d", ttl.Milliseconds()), fmt.Sprintf("within=%d", within))
+	if within == 1 {
+		if d := time.Since(last); d > maxGap {
+			maxGap = d
+		}
+		if maxGap > 2*ttl+tolerance {
+			gap = 0
+		}
+	}
+	fmt.Fprintf(os.Stderr, "follow: ttl=%v rounds=%d worst delay after move/fault-clear: %v, longest gap between metadata requests: %v\n", ttl, len(script), worst, maxGap)
+	emit(fmt.Sprintf("follow ttl=%d faults=%s", ttl.Milliseconds(), dash(strings.Join(script, ","))), fmt.Sprintf("within=%d gap=%d", within, gap))
 }
 
 func main() {
@@ -1056,5 +1137,10 @@ func main() {
 	for i := 0; i < nScen; i++ {
 		runScenario(gen.Seed()*1000+int64(i), steps)
 	}
-	followLeader(r, 100*time.Millisecond)
+	nFollow := 8
+	if gen.Thorough() {
+		nFollow = 40
+	}
+	followLeader(r, 100*time.Millisecond, nFollow)
+	followLeader(r, 60*time.Millisecond, nFollow/2)
 }
